@@ -57,6 +57,12 @@ func (cs ClientState) CheckHeaderAndUpdateState(
 		return nil, nil, err
 	}
 
+	// the consensus state the header produces must be one this module accepts itself (an empty app hash is not:
+	// the exported genesis would fail its own validation)
+	if err := tmHeader.ConsensusState().ValidateBasic(); err != nil {
+		return nil, nil, sdkerrors.Wrap(err, "header yields an invalid consensus state")
+	}
+
 	// Check the earliest consensus state to see if it is expired, if so then set the prune height
 	// so that we can delete consensus state and all associated metadata.
 	var (
